@@ -1,5 +1,6 @@
 import ApolloModel.Proofs.ParserLossless
-import ApolloModel.Proofs.ParserType5
+import ApolloModel.Proofs.ParserType10
+import ApolloModel.Proofs.ParserValue9
 /-
 C05 — Syntax acceptance matches the GraphQL grammar.
 
@@ -43,14 +44,74 @@ example : errorFree "\"d\",type A".toList = true := by decide +kernel
 example : errorFree "{a ...F ...on T{b}}".toList = true := by decide +kernel
 
 /-- Grammar acceptance for the `Type` production (the one production with unbounded nesting that is proved so
-    far): what `parse_type` accepts without error is a sentence of `Type : NamedType | [Type] | Type!` —
-    its significant tokens are exactly the tokens `tTy t` of a type reference `t`, then the end of input.
-    (Same theorem as C07 `type_accept_sound`, read as "accepted ⊆ grammar"; the converse inclusion is
-    `C07.type_accept_complete_statement`, not proved.) -/
-theorem type_accepted_is_in_grammar (rl : Nat) (src : Parse.Str) (root : Elem)
-    (h : (parse .type none rl src).outcome = .tree root) (herr : (parse .type none rl src).errors = []) :
+    far), "accepted ⊆ grammar": what `parse_type` accepts without error is a sentence of
+    `Type : NamedType | [Type] | Type!` — its significant tokens are exactly the tokens `tTy t` of a type
+    reference `t`, then the end of input. -/
+theorem type_accepted_is_in_grammar (rl : Nat) (src : Parse.Str) (herr : (parse .type none rl src).errors = []) :
     ∃ (t : Ast.Ty) (ts : List Tok) (e : Tok),
       sig (srcToks src) = ts ++ [e] ∧ e.kind = .eof ∧ ts.map astOf = (Ast.tTy t).map some :=
-  (Parse.parseType_sound rl src root h herr).2
+  (Parse.parseType_sound' rl src herr).2
+
+/-- "grammar ⊆ accepted" for the same production: every sentence of `Type` (ignored tokens anywhere but in
+    front, list nesting within the recursion limit, no lexer error) is accepted without error. -/
+theorem type_in_grammar_is_accepted (rl : Nat) (src : Parse.Str) (t : Ast.Ty) (ts : List Tok) (e : Tok)
+    (hclean : LexClean src) (hsig : sig (srcToks src) = ts ++ [e]) (he : e.kind = .eof)
+    (hty : ts.map astOf = (Ast.tTy t).map some) (hdepth : Parse.tyDepth t ≤ rl)
+    (hhead : ∀ hd tl, srcToks src = hd :: tl → isIgnoredKind hd.kind = false) :
+    (parse .type none rl src).errors = [] :=
+  Parse.parseType_complete_sig rl src t ts e hclean hsig he hty hdepth hhead
+
+section Values
+
+/-- **`value.rs::value`, acceptance is sound** (any fuel, `Const` or not, `pop_on_error` or not, any state
+    without token limit): if the run adds no error then the tokens it took from the queue, with ignored
+    tokens removed, are exactly the tokens `tValue v` of ONE value `v` of the grammar
+    `Value : Variable | IntValue | FloatValue | StringValue | BooleanValue | NullValue | EnumValue |
+    ListValue | ObjectValue` (unbounded nesting) — where enum values are names other than `true`, `false`,
+    `null`, and under `Const` no variable occurs anywhere in `v` (`valueOk`) — and the rest of the queue is
+    untouched; OR the run stopped with the end-of-input token next (`AtEof`): `list_value` leaves its loop at
+    EOF without reporting the missing `]` (see `list_value_unclosed_at_eof`), which every caller then reports
+    on its own closing token (`)`, `}`, `]`). -/
+theorem value_accept_sound (n : Nat) (isConst popOnError : Bool) (s s' : PState) (w : TW s) (he : EofEnd s)
+    (h : (value n isConst popOnError).run s = .ok () s') (hnd : ¬ Doomed s') :
+    ∃ cs, Toks s = cs ++ Toks s' ∧ NoEof cs ∧ EofEnd s' ∧
+      ((∃ v : Ast.Value, (sig cs).map astOfV = (Ast.tValue v).map some ∧ valueOk isConst v = true) ∨ AtEof s') := by
+  obtain ⟨⟨cs, a, b, d⟩, e⟩ := Parse.value_sound n isConst popOnError s s' w he h hnd
+  exact ⟨cs, a, b, e, d⟩
+
+/-- …so whenever something other than the end of input follows, the consumed tokens are one value. -/
+theorem value_accept_sound_not_at_eof (n : Nat) (isConst popOnError : Bool) (s s' : PState) (w : TW s) (he : EofEnd s)
+    (h : (value n isConst popOnError).run s = .ok () s') (hnd : ¬ Doomed s') (hne : ¬ AtEof s') :
+    ∃ cs v, Toks s = cs ++ Toks s' ∧ (sig cs).map astOfV = (Ast.tValue v).map some ∧ valueOk isConst v = true := by
+  obtain ⟨cs, a, _, _, d⟩ := value_accept_sound n isConst popOnError s s' w he h hnd
+  rcases d with ⟨v, hv, hok⟩ | d
+  · exact ⟨cs, v, a, hv, hok⟩
+  · exact absurd d hne
+
+/-- The EOF alternative is real (kernel-evaluated on the model): on the input `[1` the value function
+    returns without any error, having consumed `[ 1`, with the EOF token next. -/
+theorem list_value_unclosed_at_eof :
+    (match (value 5 false false).run (initState "[1".toList none 500) with
+      | .ok _ s => s.errors.isEmpty && (s.current.map (·.kind) == some Lex.Kind.eof)
+      | _ => false) = true := by decide +kernel
+
+/-- **`argument.rs::arguments`** started on `(`: no error ⇒ the consumed tokens are `tArguments args` for a
+    non-empty list `( Name : Value … )` of arguments with well-formed values; the rest of the queue is untouched. -/
+theorem arguments_accept_sound (n : Nat) (isConst : Bool) (s s' : PState) (t : Tok) (rest : List Tok) (w : TW s)
+    (he : EofEnd s) (ht : Toks s = t :: rest) (hk : t.kind = .lParen)
+    (h : (arguments n isConst).run s = .ok () s') (hnd : ¬ Doomed s') :
+    ∃ cs args, Toks s = cs ++ Toks s' ∧ NoEof cs ∧ EofEnd s' ∧ args ≠ [] ∧
+      (sig cs).map astOfV = (Ast.tArguments args).map some ∧ ∀ a ∈ args, valueOk isConst a.2 = true :=
+  Parse.arguments_sound n isConst s s' t rest w he ht hk h hnd
+
+/-- **`directive.rs::directives`** from any state: no error ⇒ the consumed tokens are `tDirectives ds` for a
+    (possibly empty) list of directive applications `@ Name Arguments?`; the rest of the queue is untouched. -/
+theorem directives_accept_sound (n : Nat) (isConst : Bool) (s s' : PState) (w : TW s) (he : EofEnd s)
+    (h : (directives n isConst).run s = .ok () s') (hnd : ¬ Doomed s') :
+    ∃ cs ds, Toks s = cs ++ Toks s' ∧ NoEof cs ∧ EofEnd s' ∧
+      (sig cs).map astOfV = (Ast.tDirectives ds).map some ∧ ∀ d ∈ ds, ∀ a ∈ d.args, valueOk isConst a.2 = true :=
+  Parse.directives_sound n isConst s s' w he h hnd
+
+end Values
 
 end Apollo.C05
